@@ -496,6 +496,13 @@ def gen_viewer_op(world, rng):
                     world.lonely = [s for s in world.lonely if s.data is not d]
             elif ok:
                 world.ctx.count("add_data_returned_false:" + world.kind)
+            elif any(a.layer is d for a in v.layers):
+                # add_data raised after the layer was in place (e.g. a draw callback failed): whether the dataset has
+                # been "given" is not defined by the statement - the harness follows the viewer (tallied)
+                world.ctx.count("add_data_raised_but_layer_present:" + world.kind)
+                if not is_in(d, world.given):
+                    world.given.append(d)
+                    world.lonely = [s for s in world.lonely if s.data is not d]
         return name, call, upd
     if name == "add_data_outside" and out_dc:
         d = rng.choice(out_dc)
@@ -757,8 +764,11 @@ def run_viewer_history(ctx, kind, length):
                         cm.__exit__(None, None, None)
                     except Exception as e:
                         # a listener raised while the queued messages were delivered
+                        if not world.after_exception:
+                            # attributed to the coordinate replacement when the block contains one (its messages are
+                            # only delivered now), otherwise to the block as such
+                            world.exception_in = "coords_change" if "coords_change" in names else "delay_block_exit"
                         world.after_exception = True
-                        world.exception_in = "delay_block_exit"
                         ctx.count("op_raised:%s:delay_block_exit:%s" % (kind, type(e).__name__))
                         trace.append(["delay_block_exit", "raised:" + type(e).__name__, str(e)[:120]])
                 name = "block(" + "+".join(sorted(set(x.split(":")[0] for x in names))) + ")"
@@ -788,8 +798,9 @@ def apply_op(ctx, world, rng, trace):
         ctx.count("op_rejected:%s:%s" % (world.kind, name))
     except Exception as e:
         ok = False
+        if not world.after_exception:
+            world.exception_in = name      # the first operation that raised since the last clean check
         world.after_exception = True
-        world.exception_in = name
         ctx.count("op_raised:%s:%s:%s" % (world.kind, name, type(e).__name__))
         if name.startswith("add_data") and world.kind == "image" and "scatter plot overlay" in str(e):
             ctx.count("image_first_dataset_1d_out_of_domain")
